@@ -4,7 +4,7 @@ from __future__ import annotations
 
 from .. import terms as tm
 from ..model import AnalysisError
-from .common import ob, need, call_name, facts, role_of, roles
+from .common import ob, need, call_name, facts, role_of, roles, count_form
 from .. import symeval
 from . import c01
 
@@ -496,6 +496,125 @@ def rule_cropstrict(ctx):
         yield o
 
 
+# ------------------------------------------------ INDEXGUARD / NONEGUARD / EMPTYREDUCE
+# Three contradiction rules (Engler et al.): a test and a use on the same path must talk about the same object.
+
+
+def rule_indexguard(ctx):
+    """X[i] reached under the bounds test `i < len(Y)`: Y must be X itself; a test on another array leaves the read
+    unprotected (IndexError for a valid input whose two sides differ in length)."""
+    R = "C14.INDEXGUARD"
+    n = 0
+    for f in ctx.program.all_funcs():
+        if f.module.name in ("display", "sonify"):
+            continue
+        s = ctx.S.get(f.qual)
+        k = 0
+        seen = set()
+        for st in s.by_kind("subscript"):
+            t = st.d.get("term")
+            if t is None or t.op != "sub":
+                continue
+            B, I = t.a
+            if I.op in ("const", "slice", "tuple"):
+                continue
+            for c, p in facts(st.pc):
+                if c.op == "cmp" and c.a[0] in ("<", "<=") and p and c.a[1] is I:
+                    cf = count_form(c.a[2])
+                    if cf is None:
+                        continue
+                    key = (t.id, c.id)
+                    if key in seen:
+                        continue
+                    seen.add(key)
+                    same = cf[1] is B
+                    k += 1
+                    n += 1
+                    yield ob(R, f, "%s:bounded-read@%d" % (f.qual, k), same, "%s is read under the bounds test %s on that same array" % (tm.show(t, 2), tm.show(c, 3)) if same else "%s is read under the bounds test %s, which measures a different array (%s): the read is unprotected" % (tm.show(t, 2), tm.show(c, 3), tm.show(cf[1], 2)), node=st.node)
+    need(n >= 2, R, "no bounds-tested read found (beat.continuity has two)")
+
+
+def rule_noneguard(ctx):
+    """An optional array parameter (default None) is dereferenced only under `<that parameter> is not None`."""
+    R = "C14.NONEGUARD"
+    n = 0
+    for f in ctx.program.all_funcs():
+        if f.module.name in ("display",):
+            continue
+        nd = [p for p in f.params if p in f.defaults and f.default_value(p) == (True, None)]
+        if not nd:
+            continue
+        s = ctx.S.get(f.qual)
+        k = 0
+        for st in s.sites:
+            t = st.d.get("term")
+            if t is None:
+                continue
+            for p in nd:
+                P = tm.param(p)
+                der = (st.kind == "subscript" and t.op == "sub" and t.a[0] is P) or (st.kind == "call" and st.d.get("base") is P)
+                if not der:
+                    continue
+                guarded = any(c.op == "cmp" and c.a[0] in ("is", "isnot") and any(z is P for z in c.a[1:]) and any(tm.is_const(z, None) for z in c.a[1:]) and ((c.a[0] == "isnot") == bool(pol)) for c, pol in facts(st.pc))
+                others = sorted({z.a[0] for c, pol in facts(st.pc) if c.op == "cmp" and c.a[0] in ("is", "isnot") for z in c.a[1:] if z.op == "param" and z is not P})
+                k += 1
+                n += 1
+                yield ob(R, f, "%s:%s@%d" % (f.qual, p, k), guarded, "%s is dereferenced only where `%s is not None` holds" % (p, p) if guarded else "%s (default None) is dereferenced as %s without a test on it%s" % (p, tm.show(t, 2), (" - the enclosing test is on %s" % ", ".join(others)) if others else ""), node=st.node)
+    need(n >= 3, R, "no dereference of an optional parameter found (melody.to_cent_voicing has two)")
+
+
+def _proves_two(den_arg, pc):
+    """Does the path prove that the array whose np.diff is reduced has at least 2 elements?"""
+    for c, pol in facts(pc):
+        if c.op == "cmp" and c.a[0] in ("<", "<=") and not pol:
+            cf = count_form(c.a[1])
+            k = c.a[2].a[0] if c.a[2].op == "const" and isinstance(c.a[2].a[0], (int, float)) else None
+            if cf is not None and k is not None and cf[1] is den_arg and ((c.a[0] == "<" and k >= 2) or (c.a[0] == "<=" and k >= 1)):
+                return "path has not (%s)" % tm.show(c, 3)
+    # sentinel form: the reduced array indexes an array that had a value appended at both ends
+    apps = [x for x in tm.walk(den_arg) if x.op == "call" and call_name(x) == "np.append"]
+    if len(apps) >= 2 and any(any(y is x for y in tm.walk(a.a[1][0])) for a in apps for x in apps if x is not a):
+        return "the array lists positions in a vector that had a sentinel appended at both ends"
+    # single-element case excluded by the (short-circuit) condition itself
+    for c, pol in symeval.pc_conds(pc):
+        if not pol:
+            for x in tm.walk(c):
+                if x.op == "cmp" and x.a[0] == "==" and any(tm.is_const(z, 1) for z in x.a[1:]) and any(count_form(z) is not None for z in x.a[1:]):
+                    cfz = [count_form(z) for z in x.a[1:] if count_form(z) is not None][0]
+                    if tm.params_of(cfz[1]) & tm.params_of(den_arg) or any(y is cfz[1] for y in tm.walk(den_arg)):
+                        return "reached only when not (%s)" % tm.show(c, 3)
+    return None
+
+
+def rule_emptyreduce(ctx):
+    """np.max / np.min of np.diff(x) raises ValueError when x has a single element: the reduction is reached only where
+    the path proves at least two elements (or excludes the single-element case)."""
+    R = "C14.EMPTYREDUCE"
+    n = 0
+    for f in ctx.program.all_funcs():
+        if f.module.name in ("display", "sonify", "separation"):
+            continue
+        s = ctx.S.get(f.qual)
+        k = 0
+        for c in s.calls():
+            if c.callee not in ("np.max", "np.min", "builtins.max", "builtins.min") or not c.args:
+                continue
+            diffs = [x for x in tm.walk(c.args[0]) if x.op == "call" and call_name(x) == "np.diff" and x.a[1]]
+            if not diffs:
+                continue
+            # only a reduction *of* the difference (through abs and the like), not of a list built elsewhere
+            a0 = c.args[0]
+            while a0.op == "call" and call_name(a0) in ("np.abs", "np.asarray", "np.array") and a0.a[1]:
+                a0 = a0.a[1][0]
+            if not (a0.op == "call" and call_name(a0) == "np.diff"):
+                continue
+            k += 1
+            n += 1
+            why = _proves_two(a0.a[1][0], c.pc)
+            yield ob(R, f, "%s:reduce-of-diff@%d" % (f.qual, k), why is not None, "%s: %s" % (tm.show(c.term, 3), why) if why else "%s is reached without excluding a one-element sequence: np.diff is empty there and the reduction raises ValueError" % tm.show(c.term, 3), node=c.node)
+    need(n >= 3, R, "reductions of np.diff not found (goto, continuity, standard_FPR)")
+
+
 RULES = [
     ("C14.VALIDATEFIRST", 70, rule_validatefirst),
     ("C14.RAISETYPES", 80, rule_raisetypes),
@@ -505,4 +624,7 @@ RULES = [
     ("C14.SQUEEZE", 1, rule_squeeze),
     ("C14.COUNTGUARD", 23, rule_countguard),
     ("C14.CROPSTRICT", 4, rule_cropstrict),
+    ("C14.INDEXGUARD", 2, rule_indexguard),
+    ("C14.NONEGUARD", 3, rule_noneguard),
+    ("C14.EMPTYREDUCE", 3, rule_emptyreduce),
 ]
